@@ -283,33 +283,52 @@ template<typename Kind> struct C08Exec {
   std::string fp(const char* cls) const { return "C08|" + fam + "|" + cls; }
 
   // enumerates the draw tree of `op` applied to copies of the given pre-state; returns leaves (depth, weight map)
-  struct Leaf { std::vector<uint8_t> bits; std::map<i64, u64> w; u64 n; };
-  template<typename Op> void explore(const std::vector<uint8_t>& prefix, Op& op, std::vector<Leaf>& leaves, int& executions, int limit) {
+  // A 64-bit draw (the stride offset of the classic down-sampling merge) is enumerated as well: the 2^64 values are cut into `cells` equal
+  // intervals (cells = the ratio of the two k, a power of two) and one value from each is scripted. A uniform choice among a power-of-two number
+  // of offsets takes the top bits of the draw (checked once against this standard library, see stride_map_ok), so it is constant on every cell
+  // and the enumeration is exact; whatever the operation does with the draw, each cell has probability 1/cells.
+  struct Leaf { std::vector<uint8_t> bits; size_t draws = 0; std::map<i64, u64> w; u64 n; };
+  static bool stride_map_ok() {
+    static int ok = -1; if (ok >= 0) return ok != 0;
+    struct Fixed { typedef uint64_t result_type; u64 v; static constexpr u64 min() { return 0; } static constexpr u64 max() { return UINT64_MAX; } u64 operator()() { return v; } };
+    ok = 1;
+    for (uint32_t cells : { 2u, 4u, 8u, 16u, 64u }) for (uint32_t j = 0; j < cells; j++) { const u64 w = (UINT64_MAX / cells) + 1, lo = w * j;
+      for (u64 v : { lo, lo + w / 2, lo + w - 1 }) { Fixed f{ v }; std::uniform_int_distribution<uint32_t> d(0, cells - 1); if (d(f) != j) ok = 0; } }
+    return ok != 0;
+  }
+  template<typename Op> void explore(const std::vector<uint8_t>& prefix, const std::vector<u64>& draws, u64 cells, Op& op, std::vector<Leaf>& leaves, int& executions, int limit) {
     if (executions >= limit) return;
-    SimRandom r(1); r.bit_script = prefix; r.bit_mode = SimRandom::ALL0; r.install();
+    SimRandom r(1); r.bit_script = prefix; r.bit_mode = SimRandom::ALL0; r.u64_script = draws; r.install();
     executions++;
     std::unique_ptr<S> res(op());
     SimRandom::uninstall();
-    if (r.u64_drawn != 0) { leaves.clear(); executions = limit; ctx.probe("operation_draws_u64"); return; }
-    if (r.bits_drawn <= prefix.size()) { Leaf l; l.bits = prefix; l.bits.resize(r.bits_drawn); l.w = weight_by_item(*res); l.n = res->get_n(); leaves.push_back(std::move(l)); return; }
+    if (r.u64_drawn > draws.size()) {
+      if (cells < 2 || !stride_map_ok()) { leaves.clear(); executions = limit; ctx.probe("operation_draws_u64"); return; }
+      const u64 width = (UINT64_MAX / cells) + 1;
+      for (u64 j = 0; j < cells; j++) { std::vector<u64> d = draws; d.push_back(width * j + width / 2); explore(prefix, d, cells, op, leaves, executions, limit); }
+      return;
+    }
+    if (r.bits_drawn <= prefix.size()) { Leaf l; l.bits = prefix; l.bits.resize(r.bits_drawn); l.draws = r.u64_drawn; l.w = weight_by_item(*res); l.n = res->get_n(); leaves.push_back(std::move(l)); return; }
     std::vector<uint8_t> p0 = prefix, p1 = prefix; p0.push_back(0); p1.push_back(1);
-    explore(p0, op, leaves, executions, limit); explore(p1, op, leaves, executions, limit);
+    explore(p0, draws, cells, op, leaves, executions, limit); explore(p1, draws, cells, op, leaves, executions, limit);
   }
 
   // oracle 1 + 2 for one operation: expected R after = R before (all operands) + new items; all leaves at the same depth
-  template<typename Op> void check_operation(Op& op, const std::map<i64, u64>& before, u64 n_after, const char* what) {
-    std::vector<Leaf> leaves; int execs = 0; explore(std::vector<uint8_t>(), op, leaves, execs, 5000);
+  template<typename Op> void check_operation(Op& op, const std::map<i64, u64>& before, u64 n_after, const char* what, u64 cells = 0) {
+    std::vector<Leaf> leaves; int execs = 0; explore(std::vector<uint8_t>(), std::vector<u64>(), cells, op, leaves, execs, 5000);
     if (execs >= 5000 || leaves.empty()) { ctx.probe("draw_tree_too_large"); return; }
-    size_t depth = leaves[0].bits.size();
-    for (const Leaf& l : leaves) ctx.require(l.bits.size() == depth, fp("number-of-coin-flips-depends-on-outcome").c_str(), std::string(what) + ": " + std::to_string(depth) + " vs " + std::to_string(l.bits.size()));
-    ctx.require(leaves.size() == (static_cast<size_t>(1) << depth), fp("draw-tree-not-complete").c_str(), what);
+    size_t depth = leaves[0].bits.size(); const size_t ndraws = leaves[0].draws;
+    for (const Leaf& l : leaves) ctx.require(l.bits.size() == depth && l.draws == ndraws, fp("number-of-coin-flips-depends-on-outcome").c_str(), std::string(what) + ": " + std::to_string(depth) + "+" + std::to_string(ndraws) + " vs " + std::to_string(l.bits.size()) + "+" + std::to_string(l.draws));
+    size_t expect_leaves = static_cast<size_t>(1) << depth; for (size_t i = 0; i < ndraws; i++) expect_leaves *= static_cast<size_t>(cells);
+    ctx.require(leaves.size() == expect_leaves, fp("draw-tree-not-complete").c_str(), what);
+    if (ndraws) { ctx.probe("stride_offsets_enumerated"); ctx.nontrivial = true; }
     if (depth >= 1) { ctx.probe("operations_with_coin_flips"); ctx.nontrivial = true; } if (depth >= 2) ctx.probe("coin_fork_depth_ge2");
     std::set<i64> pts; for (auto& kv : before) pts.insert(kv.first); for (const Leaf& l : leaves) for (auto& kv : l.w) pts.insert(kv.first);
     for (const Leaf& l : leaves) ctx.require(l.n == n_after, fp("n-differs-between-coin-outcomes").c_str(), what);
     for (i64 v : pts) {
       unsigned __int128 sum = 0; for (const Leaf& l : leaves) sum += rank_count(l.w, v);
-      const unsigned __int128 want = static_cast<unsigned __int128>(rank_count(before, v)) << depth;
-      if (sum != want) ctx.fail(fp("rank-biased-over-coin-flips"), std::string(what) + ": at v=" + std::to_string(v) + " mean rank count " + std::to_string(static_cast<double>(sum) / static_cast<double>(1ULL << depth)) + " expected " + std::to_string(rank_count(before, v)) + " over " + std::to_string(leaves.size()) + " outcomes");
+      const unsigned __int128 want = static_cast<unsigned __int128>(rank_count(before, v)) * leaves.size();
+      if (sum != want) ctx.fail(fp("rank-biased-over-coin-flips"), std::string(what) + ": at v=" + std::to_string(v) + " mean rank count " + std::to_string(static_cast<double>(sum) / static_cast<double>(leaves.size())) + " expected " + std::to_string(rank_count(before, v)) + " over " + std::to_string(leaves.size()) + " outcomes");
     }
     ctx.check();
   }
@@ -330,7 +349,7 @@ template<typename Kind> struct C08Exec {
     const int hra = static_cast<int>(p.cfg[2] & 1);
     std::vector<std::unique_ptr<S>> sk(3);
     SimRandom main_rnd(p.run_seed);
-    for (size_t i = 0; i < sk.size(); i++) sk[i].reset(new S(Kind::make(static_cast<int>(p.cfg[1]) + (std::is_same<Kind, KllKind<float>>::value ? static_cast<int>(2 * i) : 0), hra)));   // kll: three different k from the start, so that merge trees mix k
+    for (size_t i = 0; i < sk.size(); i++) sk[i].reset(new S(Kind::make(static_cast<int>(p.cfg[1]) + (std::is_same<Kind, KllKind<float>>::value ? static_cast<int>(2 * i) : std::is_same<Kind, ClsKind<float>>::value ? static_cast<int>(i) : 0), hra)));   // kll and classic: different k from the start, so that merge trees mix k (classic: down-sampling merges)
     std::vector<uint16_t> min_k; for (auto& x : sk) min_k.push_back(x->get_k());   // the smallest k among everything compacted that was merged into each sketch
     int idx = 0;
     for (const Step& s : p.steps) {
@@ -355,7 +374,8 @@ template<typename Kind> struct C08Exec {
         std::map<i64, u64> before = weight_by_item(*cur); for (auto& kv : weight_by_item(*src)) before[kv.first] += kv.second;
         const S& a = *cur; const S& b = *src;
         auto op = [&]() { S* c = new S(a); c->merge(b); return c; };
-        check_operation(op, before, a.get_n() + b.get_n(), "merge");
+        const u64 ka = a.get_k(), kb = b.get_k(), ratio = ka > kb ? ka / kb : kb / ka;
+        check_operation(op, before, a.get_n() + b.get_n(), "merge", std::is_same<Kind, ClsKind<float>>::value && ratio >= 2 && (ratio & (ratio - 1)) == 0 ? ratio : 0);
         const bool src_compacted = src->is_estimation_mode();   // a source that never compacted hands over raw items: its k has not cost any accuracy
         main_rnd.install(); cur->merge(*src); SimRandom::uninstall();
         if (src_compacted) min_k[static_cast<size_t>(s.a) % 3] = std::min(min_k[static_cast<size_t>(s.a) % 3], min_k[static_cast<size_t>(s.b) % 3]);
@@ -422,9 +442,9 @@ struct C08World: World {
     int n = static_cast<int>(rp.range(2, tier ? 10 : 6));
     for (int i = 0; i < n; i++) {
       Step s; unsigned roll = static_cast<unsigned>(rp.below(100)); s.a = static_cast<i64>(rp.below(3));
-      if (roll < 60) { s.kind = K_UPD; s.b = static_cast<i64>(rp.below(1000)); s.c = kind == 1 ? rp.range(1, 40) : rp.range(1, tier ? 60 : 30); }
+      if (roll < 60) { s.kind = K_UPD; s.b = static_cast<i64>(rp.below(1000)); s.c = kind == 1 ? rp.range(1, 40) : kind == 2 ? rp.range(1, tier ? 90 : 50) : rp.range(1, tier ? 60 : 30); }
       else if (roll < 85) { s.kind = K_MERGE; s.b = static_cast<i64>(rp.below(3)); }
-      else { s.kind = K_NEW; s.b = static_cast<i64>(rp.below(kind == 2 ? 3 : kind == 0 ? 5 : 2)); }   // kll: k in {8, 8, 9, 12, 20} so that merge trees mix k
+      else { s.kind = K_NEW; s.b = static_cast<i64>(rp.below(kind == 2 ? 5 : kind == 0 ? 5 : 2)); }   // classic: k in {2, 4, 4, 8, 16}, so that down-sampling merges with strides 2, 4, 8 occur   // kll: k in {8, 8, 9, 12, 20} so that merge trees mix k
       p.steps.push_back(s);
     }
     return p;
